@@ -3,3 +3,5 @@ pub mod leafref;
 pub mod leafx;
 pub mod mcx;
 pub mod leafnative;
+pub mod privx;
+pub mod wrapref;
